@@ -1,7 +1,7 @@
 //verif:pkg pkg/core
 //verif:use store,kv
 //verif:assume backoff.Retry modelled as: call the operation until it returns nil, at most 3 attempts, no sleeping (natively the real exponential backoff runs)
-//verif:assume blob store and KV = in-memory models; GetAttr may fail transiently 0..3 times before succeeding
+//verif:assume blob store and KV = in-memory models; GetAttr may fail transiently 0..2 times before succeeding
 //verif:cover VerifC13CheckAndDelete deleted kept-recent attr-failed
 package core
 
@@ -33,7 +33,7 @@ func VerifC13CheckAndDelete() {
 	indexTime := time.Unix(idxSec, 0)
 	upd := time.Unix(updSec, 0)
 	blob.attrHook = func(k string, a *storage.Attributes) { a.Updated = upd }
-	f := vChoose("attrFailures", 4) // the first f attribute reads fail
+	f := vChoose("attrFailures", 3) // the first f attribute reads fail (0..2: fewer than the 3 attempts of the retry model, so that the model and the real time-based policy agree)
 	attempt := 0
 	gotAttrs := false
 	blob.fail = func(op, k string) error {
